@@ -552,7 +552,7 @@ def run(ctx):
                 return
         sequential(ctx, eng, ctx.pick(1500, 30000), probe)
         t_core = ctx.pick(9, 150)
-        t_end = ctx.pick(15, 330)
+        t_end = ctx.pick(15, 300)
 
         def perturbed(wl, n):
             for _ in range(n):
@@ -577,7 +577,7 @@ def run(ctx):
         ctx.count("engine_line_callbacks", eng.stats["line_events"])
     # INSTRUCTION granularity: every bytecode of BufferedPipe is a preemption point (splits conditions
     # written on one source line, e.g. an unlocked `empty and closed` fast path)
-    t_instr = t_end + ctx.pick(4, 60)
+    t_instr = t_end + ctx.pick(4, 40)
     with sched.Engine(funcs, instr_funcs=funcs) as eng:
         eng.add_probe(BufferedPipe.read, "raise PipeTimeout", probe)
         core = [wl for wl in core_workloads() if len(wl["threads"]) == 2]
